@@ -62,6 +62,9 @@ def run(ctx):
                 if n.lower() == 'cookie':
                     lines.append('cookies %s' % hx(v))
                     meta.append(('cookie', v, None, None))
+    if not ctx.replay:
+        lines.append('cookies -')          # no Cookie header at all: no cookies (and no panic)
+        meta.append(('cookie', None, None, None))
     # header lookup on collections with repeated names in mixed letter case: get = first, get_all = all in order,
     # remove = every one of that name
     HN = ['Content-Length', 'content-length', 'CONTENT-LENGTH', 'Cookie', 'cookie', 'X-Forwarded-For', 'x-forwarded-for', 'X-Custom',
@@ -97,6 +100,8 @@ def run(ctx):
                 failing, what = b.split(' rest=')[0] != want, 'Headers::get / get_all / remove on repeated names differs'
             elif kind == 'rt':
                 failing, what = True, 'serialise-then-parse differs from the model'
+            if b in ('PANIC', 'DIED', 'TIMEOUT'):
+                failing, what = True, 'the implementation crashed or hung (%s) where the model answers %s' % (b, a[:80])
             ctx.report({'line': line, 'kind': kind}, b[:600], a[:600], cls='req-mismatch', failing_input=failing, what=what)
             continue
         if kind == 'hdr':
